@@ -143,6 +143,10 @@ NEEDS_TOP = (".xtc", ".trr", ".dcd", ".nc", ".netcdf", ".ncdf", ".ncrst", ".crd"
              ".rst7", ".dtr")
 
 
+EXTRA_CELLS = {"obtuse2": [85.0, 100.0, 110.0], "obtuse2b": [95.0, 91.0, 93.0], "obtuse3": [109.4712206] * 3,
+               "mixed90a": [90.0, 90.0, 120.0], "mixed90b": [90.0, 105.0, 90.0], "mixed90c": [60.0, 60.0, 90.0]}
+
+
 def saveload(md, d, exts, atom_counts=(4,)):
     """every writable format x {no cell, triclinic cell, rectilinear cell} x {1, 3 frames}: what comes back.
     -> {ext: {"none/1": outcome, ...}}; outcome = {"refused": errclass} | {"have": bool, "half": bool, "frames": n,
@@ -163,6 +167,8 @@ def saveload(md, d, exts, atom_counts=(4,)):
         row = {}
         # the number of atoms varies too (odd / even counts fill the last coordinate line of the text formats differently)
         combos = [(cell, nf, None, None, na) for na in atom_counts for cell in ("none", "triclinic", "rectilinear") for nf in (1, 3)]
+        # cells with two / three obtuse angles, and non-rectilinear cells that contain exact 90 degree angles
+        combos += [(cell, nf, None, None, atom_counts[0]) for cell in EXTRA_CELLS for nf in (1, 3)]
         # every keyword argument the saver accepts (found by introspection), switched away from its default
         probe = md.Trajectory(np.zeros((1, 4, 3), dtype=np.float32), tops[4])
         params = [p_ for p_ in list(inspect.signature(probe._savers()[ext]).parameters)[1:]]
@@ -185,7 +191,7 @@ def saveload(md, d, exts, atom_counts=(4,)):
                 rng = np.random.RandomState(5)
                 xyz = rng.rand(nf, na, 3).astype(np.float32)
                 L = (np.array([[3.0, 4.0, 5.0]]) + 0.125 * np.arange(nf)[:, None]).astype(np.float32)
-                A = np.array([[80.0, 95.0, 110.0] if cell == "triclinic" else [90.0, 90.0, 90.0]] * nf, dtype=np.float32)
+                A = np.array([EXTRA_CELLS.get(cell, [80.0, 95.0, 110.0] if cell == "triclinic" else [90.0, 90.0, 90.0])] * nf, dtype=np.float32)
                 t = md.Trajectory(xyz.copy(), top, unitcell_lengths=L if cell != "none" else None,
                                   unitcell_angles=A if cell != "none" else None)
                 p = os.path.join(d, "%s_%d_%d_%s%s%s" % (cell, nf, na, o or "", str(val).replace("-", ""), ext))
